@@ -236,7 +236,8 @@ def amen_divide(a, b, nswp = 22, x0 = None, eps = 1e-10,rmax = 100, max_full = 5
                 eps_local = real_tol * norm_rhs
                 drhs = Op.matvec(previous_solution, False)
                 drhs = rhs-drhs
-                eps_local = eps_local / tn.linalg.norm(drhs) 
+                # a vanishing local right-hand side: the tolerance is relative to the residual of the previous solution instead of zero
+                eps_local = eps_local / tn.linalg.norm(drhs) if norm_rhs > 0 else real_tol
                 solution_now, flag, nit = gmres_restart(Op, drhs, previous_solution*0, rhs.shape[0], local_iterations+1, eps_local, resets)
                 if preconditioner != None:
                     solution_now = Op.apply_prec(tn.reshape(solution_now,shape_now))
